@@ -96,6 +96,11 @@ fn rx_step(ignore_mac: bool, shape: Option<(usize, u8)>) {
         None => kani::any(),
     };
     kani::assume(len <= MAXLEN);
+    // certification build: the certification protocol's port is outside this harness
+    #[cfg(feature = "certification")]
+    if let Some((_, fol)) = shape {
+        kani::assume(frame[8 + fol as usize] != 224);
+    }
     rx.as_mut().copy_from_slice(&frame);
     rx.set_pos(len);
     let max_payload_len: u8 = kani::any();
@@ -321,4 +326,28 @@ fn rx_step_class_a() {
 #[kani::unwind(24)]
 fn rx_step_class_c() {
     rx_step(true, None)
+}
+
+// ---- the same step with the non-default `certification` feature compiled in ----------------------
+/// contract-free cut of the certification protocol parser (its payload handling is outside this
+/// harness: frames on the certification port are assumed away below)
+#[cfg(feature = "certification")]
+fn stub_cert_message(
+    _c: &mut crate::mac::certification::Certification,
+    _data: &[u8],
+    _cnt: u16,
+) -> crate::mac::certification::Response {
+    crate::mac::certification::Response::NoUpdate
+}
+//@h id=rx_a_len17_cert props=C07,C04,C05 tier=quick build=dev-eu868-cert cost=120 timeout=1500
+//@bounds `certification` feature compiled in: Class A window, 17 bytes, FOptsLen 0 (FPort + 4-byte FRMPayload), any port but the certification port 224; arbitrary session including the certification protocol's own fields (RxAppCnt, frame-type override): a frame that is not accepted leaves all of them unchanged, no counter arithmetic can overflow
+//@encodes Session::handle_rx (certification build)
+//@assumes Session::handle_downlink_macs stubbed by a no-op; Certification::handle_message cut (frames on port 224 assumed away); AES/CMAC are uninterpreted functions
+#[cfg(feature = "certification")]
+#[kani::proof]
+#[kani::stub(Session::handle_downlink_macs, noop_macs)]
+#[kani::stub(crate::mac::certification::Certification::handle_message, stub_cert_message)]
+#[kani::unwind(24)]
+fn rx_a_len17_cert() {
+    rx_step(false, Some((17, 0)));
 }
